@@ -116,10 +116,12 @@ impl<W, R, T> CompilationScope<'_, W, R, T> {
             ret: rtype,
             short_circuit_overloads: false,
         };
-        let defaults = param_static_defaults
+        let defaults: Vec<_> = param_static_defaults
             .into_iter()
             .filter_map(|s| s.map(|s| self.compile(s)))
             .collect::<Result<_, _>>()
+            .map_err(|e| e.trace(input))?;
+        self.check_default_types(&param_names, &spec.params, &defaults)
             .map_err(|e| e.trace(input))?;
         let param_len = param_names.len();
         Ok(ParsedFunctionHeader {
@@ -811,10 +813,12 @@ impl<W, R, T> CompilationScope<'_, W, R, T> {
                         })
                         .multiunzip();
                 let param_len = param_specs.len();
-                let defaults = param_static_defaults
+                let defaults: Vec<_> = param_static_defaults
                     .into_iter()
                     .filter_map(|s| s.map(|s| self.compile(s)))
                     .collect::<Result<_, _>>()
+                    .map_err(|e| e.trace(&input))?;
+                self.check_default_types(&param_names, &param_specs, &defaults)
                     .map_err(|e| e.trace(&input))?;
                 let mut subscope = CompilationScope::from_parent_lambda(
                     self,
@@ -856,6 +860,32 @@ impl<W, R, T> CompilationScope<'_, W, R, T> {
                 panic!("not an expression {input:?}");
             }
         }
+    }
+
+    fn check_default_types(
+        &self,
+        param_names: &[Identifier],
+        param_specs: &[XFuncParamSpec],
+        defaults: &[XExpr<W, R, T>],
+    ) -> Result<(), CompilationError> {
+        let optional = param_names
+            .iter()
+            .zip(param_specs.iter())
+            .filter(|(_, spec)| !spec.required);
+        for ((name, spec), default) in optional.zip(defaults.iter()) {
+            let default_type = self.type_of(default)?;
+            match spec.type_.bind_in_assignment(&default_type) {
+                Some(bind) if bind.is_trivial() => {}
+                _ => {
+                    return Err(CompilationError::VariableTypeMismatch {
+                        variable_name: *name,
+                        expected_type: spec.type_.clone(),
+                        actual_type: default_type,
+                    })
+                }
+            }
+        }
+        Ok(())
     }
 
     fn parse_param_specs(
